@@ -46,6 +46,18 @@ Added in the fourth pass:
          override delegating once, and no method that activation dispatches to on the receiver (template-method hooks, resolved on
          the subclass) enters add() again;
   R19.d  Application.__init__ binds self.middlewares to a copy (the list the endpoints search cannot be edited from outside).
+Added in the fifth pass (moves across modules, modernisation):
+  every anchor is followed to the module its definition lives in now (``fi.mod``): statements, path conditions and constants are looked
+  up there; the writers of the store's state are Reservoir's own methods *by identity*; call sites of a followed function and the
+  functions on the report path are looked for across the analysed tree;
+  R19.a  the declared field order of the record type is read from ``namedtuple(..)``, a ``typing.NamedTuple`` class, a dataclass /
+         attrs class or a plain class whose constructor stores every parameter under its own name; the exceptional status key may be
+         spelt as a test (``hasattr(e, 'code')`` / a lookup with a module-level sentinel compared by identity): the code where there is
+         one, the class name where there is none;
+  R19.b  where the report is assembled inside the report-and-reset function itself (the assembling helper was dissolved), the report
+         statements are the statements that read ``<mw>.route_hits`` (or a local that only ever names that table): all of them before
+         reset() on every path, and what is returned holds what they computed;
+  R19.c  a read-only property of the store (``self._data_count``) is read through its return expression (front-end, read_properties).
 Each group runs in isolation (a gap in one does not hide violations of the others).
 Declined: sampling statistics (uniformity); totals per status over histories.
 """
